@@ -1130,7 +1130,10 @@ def history(ctx: Ctx, rng, mutable: bool, steps: int, classes: List[str], origin
         ctx.stat(f"monitored(other):history:{'mutable' if mutable else 'default'}:{name}")
         rp = dict(kind="history", mutable=mutable, pool=build, trace=[(n, i, dict(ar)) for n, i, ar in trace][-12:],
                   step=step, classes=classes)
-        if res[0] == "err" and not documented_refusal(name, res[1]):
+        if res[0] == "err" and isinstance(res[1], ImportError) and name.endswith("show_diagram"):
+            # pygraphviz / coloraide are not installed here: the method raises before touching the automaton
+            ctx.stat("monitored(other):history:show_diagram_not_installed")
+        elif res[0] == "err" and not documented_refusal(name, res[1]):
             # an operation on accepted automata raised something its documentation does not
             # announce.  That is not a failure of THIS property (C18 is about definitions never
             # changing; whether accepted automata are usable is C19's question, which runs the same
